@@ -158,3 +158,57 @@ def standalone(spec, i):
         if d is not None:
             setattr(s, sec, {k: v for k, v in d.items() if k == out} or None)
     return s
+
+
+def gen_reread(rnd):
+    """A mapped Einsum (shape / occupancy / flatten / double flatten / 3-rank
+    flatten) followed by a plain Einsum that reads one of its INPUTS again:
+    whatever the first Einsum did to that input's variable must not be visible
+    to the second."""
+    from . import einsum as GE
+    cls = rnd.choice(["shape", "occupancy", "flatten", "double-flatten", "flatten3", "flatten"])
+    s = None
+    for _ in range(60):
+        if cls == "flatten3":
+            s = M.gen_flatten3_discordant(rnd)
+            break
+        b, info = GE.gen_plain(rnd, products_only=True, allow_take=False, allow_scalar=False,
+                               allow_rank0=False, max_ranks=4 if cls == "double-flatten" else 3)
+        if cls == "shape":
+            s = M.add_shape_partitioning(rnd, b, info, ordered=True)
+        elif cls == "occupancy":
+            s = M.add_occupancy(rnd, b, info)
+        elif cls == "flatten":
+            s = M.add_flatten(rnd, b, info)
+        else:
+            s = M.add_double_flatten(rnd, b, info)
+        if s is not None:
+            break
+    if s is None:
+        return None
+    # rename the output Z -> T
+    def ren(d):
+        return None if d is None else {("T" if k == "Z" else k): v for k, v in d.items()}
+    s.decl = ren(s.decl)
+    s.rank_order = ren(s.rank_order)
+    s.partitioning = ren(s.partitioning)
+    s.loop_order = ren(s.loop_order)
+    e1 = s.exprs[0]
+    e1.out.name = "T"
+    ins = [a.name for a in e1.inputs() if s.decl[a.name]]
+    if not ins:
+        return None
+    x = rnd.choice(ins)
+    rs = list(s.decl[x])
+    s.decl["Z"] = list(rs)
+    facs = [_acc(x, rs)]
+    if s.decl["T"] and all(r in rs for r in s.decl["T"]) and rnd.random() < 0.6:
+        facs.append(_acc("T", s.decl["T"]))
+        rnd.shuffle(facs)
+    s.exprs.append(Einsum(_acc("Z", rs), [Term("times", facs)]))
+    if s.rank_order is not None and rnd.random() < 0.5:
+        q = list(rs)
+        rnd.shuffle(q)
+        s.rank_order["Z"] = q
+    s.tags = list(s.tags) + ["cascade2", "reread-input", "reread-after-" + cls]
+    return s
